@@ -711,3 +711,42 @@ pub fn t_reduce_watermark<'a>(a: S<'a, KV>, b: S<'a, u32>) {
         .assume_ordering::<TotalOrder>(nondet!(/** observation only */))
         .embedded_output("out");
 }
+
+// ------------------------------------------------------------------ round 4: top-level joins with a
+// Bounded side (source_iter).  Bounded left x unbounded right is a HydroNode::Join (both sides at
+// top level: join_multiset<'static,'static> -> multiset_delta); a Bounded right side makes
+// Stream::join build a HydroNode::JoinHalf (join_multiset_half<'static,'tick>).
+
+pub fn f_join_bl<'a>(a: S<'a, KV>) {
+    let l = a.location().source_iter(q!(vec![(1u32, 10u32), (2u32, 20u32), (1u32, 30u32)]));
+    l.join(a)
+        .assume_ordering::<TotalOrder>(nondet!(/** observation only */))
+        .embedded_output("out");
+}
+
+pub fn f_join_br<'a>(a: S<'a, KV>) {
+    let r = a.location().source_iter(q!(vec![(1u32, 10u32), (2u32, 20u32), (1u32, 30u32)]));
+    a.join(r).embedded_output("out");
+}
+
+pub fn f_join_bb<'a>(a: S<'a, KV>) {
+    let l = a.location().source_iter(q!(vec![(1u32, 10u32), (2u32, 20u32), (1u32, 30u32)]));
+    let r = a.location().source_iter(q!(vec![(1u32, 1u32), (3u32, 2u32), (1u32, 3u32)]));
+    l.join(r)
+        .map(q!(|(k, (v, w))| (k, v + w)))
+        .join(a)
+        .assume_ordering::<TotalOrder>(nondet!(/** observation only */))
+        .embedded_output("out");
+}
+
+pub fn f_cross_bl<'a>(a: S<'a, u32>) {
+    let l = a.location().source_iter(q!(vec![7u32, 8u32]));
+    l.cross_product(a)
+        .assume_ordering::<TotalOrder>(nondet!(/** observation only */))
+        .embedded_output("out");
+}
+
+pub fn f_cross_br<'a>(a: S<'a, u32>) {
+    let r = a.location().source_iter(q!(vec![7u32, 8u32]));
+    a.cross_product(r).embedded_output("out");
+}
